@@ -285,7 +285,12 @@ fn history(
                 };
                 let (cs, first_hit) = if !reuse.is_empty() {
                     (*rng.pick(&reuse), false)
-                } else if let Some(c) = fresh.take(level, target, kind) {
+                } else if let Some(c) = (if kind == Kind::Span && rng.chance(1, 3) { fresh.take_root_span(level, target) } else { None }).or_else(|| fresh.take(level, target, kind)) {
+                    // (a third of the span callsites are written `span!(parent: None, ..)`: the
+                    // macro's explicit-parent arm)
+                    if c.idx >= vcs::POOL.len() {
+                        out.count("span_callsites_with_explicit_parent_hit_first", 1);
+                    }
                     used.push(c);
                     (c, true)
                 } else {
